@@ -193,6 +193,12 @@ class SymInterp:
             if isinstance(s.op, ast.Sub):
                 self.assign(s.target, cur - v, env)
                 return
+            if isinstance(s.op, ast.Div):
+                self.assign(s.target, cur / v, env)
+                return
+            if isinstance(s.op, ast.FloorDiv):
+                self.assign(s.target, cur // v, env)
+                return
             raise AnalysisError(f"augmented assignment {unparse(s)} outside the fragment")
         if isinstance(s, ast.If):
             c = self.ev(s.test, env)
@@ -327,10 +333,14 @@ class SymInterp:
             if e.id in ("int", "float", "complex", "bool", "str", "object", "list", "tuple", "dict", "set"):
                 return {"int": int, "float": float, "complex": complex, "bool": bool, "str": str, "object": object, "list": list, "tuple": tuple, "dict": dict, "set": set}[e.id]
             raise AnalysisError(f"unknown name {e.id} in symbolic interpretation")
-        if isinstance(e, ast.Tuple):
-            return tuple(self.ev(x, env) for x in e.elts)
-        if isinstance(e, ast.List):
-            return [self.ev(x, env) for x in e.elts]
+        if isinstance(e, (ast.Tuple, ast.List)):
+            out = []
+            for x in e.elts:
+                if isinstance(x, ast.Starred):
+                    out.extend(list(self.ev(x.value, env)))
+                else:
+                    out.append(self.ev(x, env))
+            return tuple(out) if isinstance(e, ast.Tuple) else out
         if isinstance(e, ast.Dict) and all(k is not None for k in e.keys):
             return {self.ev(k, env): self.ev(v, env) for k, v in zip(e.keys, e.values)}
         if isinstance(e, ast.Attribute):
@@ -514,6 +524,8 @@ class SymInterp:
             if target is not None:
                 if callable(target):
                     return target(*args, **kwargs)
+                if any(isinstance(d, ast.Name) and d.id == "staticmethod" for d in getattr(target.node, "decorator_list", [])):
+                    return self.call_function(target, args, kwargs)
                 return self.call_function(target, [recv] + args, kwargs)
             raise AnalysisError(f"method {f.attr} on {recv!r} cannot be resolved symbolically")
         raise AnalysisError(f"call `{unparse(e)[:50]}` outside the symbolic fragment")
